@@ -12,6 +12,8 @@
 -/
 import FwdVerif.Lemmas.ReqExamples
 import FwdVerif.Lemmas.ReqRules
+import FwdVerif.Lemmas.ReqUpgrade
+import FwdVerif.Lemmas.ReqSeq
 
 namespace FwdVerif
 namespace C01
@@ -636,6 +638,274 @@ example : (processConnection exCfg exCtx (reqItems [exReqChains, exReq, exReqUpg
     some (.req (processRequest exCfg exCtx exReq)) :=
   c01_position_independent exCfg exCtx [exReqChains] [exReqUpgrade] exReq
 
+/-! ## 12 nominated names; protocol upgrades that nominate further names -/
+
+/-- The upgrade re-add step of the model (`upgradeReadd`, the last header step of `processRequest`)
+    restores exactly `Connection: Upgrade` and `Upgrade: <type>` and nothing else: every other key
+    of the header map is what it was after the hop-by-hop fields were stripped, and every entry of
+    the result is an entry of the input or one of the two restored ones.  Without a captured
+    upgrade the step is the identity. -/
+theorem c01_upgrade_readd_exact (up : Bytes) (h7 : HMap) (hne : up ≠ []) :
+    hget (upgradeReadd up h7) (bs "Connection") = [bs "Upgrade"] ∧
+    hget (upgradeReadd up h7) (bs "Upgrade") = [up] ∧
+    (∀ k, k ≠ bs "Connection" → k ≠ bs "Upgrade" →
+      HMap.get (upgradeReadd up h7) k = HMap.get h7 k) ∧
+    (∀ e ∈ upgradeReadd up h7,
+      e ∈ h7 ∨ e = (bs "Connection", [bs "Upgrade"]) ∨ e = (bs "Upgrade", [up])) ∧
+    upgradeReadd [] h7 = h7 :=
+  ⟨hget_upgradeReadd_conn h7 hne, hget_upgradeReadd_upg h7 hne,
+    fun _ hc hu => get_upgradeReadd_other up h7 hc hu, fun _ he => keys_upgradeReadd up h7 he, rfl⟩
+
+/-- … and that step, with the upgrade the client asked for, is what the writer is given: the
+    forwarded message is `writeRequest` of the re-add applied to the header after rules, site
+    credential and empty User-Agent — nothing runs after it -/
+theorem c01_upgrade_readd_is_last (h : processRequest cfg ctx r = .forwarded hop out) :
+    ∃ g0 h4 auth, upgradeType g0.header = upgradeRequested r ∧
+      out = writeRequest hop auth { fixup ctx g0 with
+        header := upgradeReadd (upgradeRequested r)
+          (tailBeforeUpgrade cfg (C16.applyRules cfg.rules h4)) } := by
+  obtain ⟨g0, h3, h4, auth, t⟩ := processRequest_forwarded h
+  refine ⟨g0, h4, auth, t.upType, ?_⟩
+  rw [← t.upType, ← finish_eq_readd]
+  exact t.out
+
+/-- Every name a request nominates in `Connection` is gone at the next hop — for EVERY forwarded
+    request, a protocol upgrade or not — unless it is one of the names the proxy (or Go's writer)
+    produces itself (`proxyWrittenLower`: each of those has its exact clause: `c01_host`,
+    `c01_via_exact`, `c01_xff_exact`, `c01_forwarded_*`, `c01_accept_encoding_exact`,
+    `c01_authorization_exact`, `c01_connection_values`, `c01_upgrade_values`, C06 for
+    `proxy-authorization`).  Unlike `c01_hop_by_hop_removed` this covers the managed names
+    `user-agent` and `cache-control` too. -/
+theorem c01_nominated_removed (h : processRequest cfg ctx r = .forwarded hop out)
+    (hr : cfg.rules = []) {n : Bytes} (hn : n.all isTokenByte = true) (hl : lower n = n)
+    (hnom : n ∈ nominated r) (hw : n ∉ proxyWrittenLower) : outValues out n = [] := by
+  by_cases hua : n = bs "user-agent"
+  · subst hua
+    exact c01_no_user_agent_invented h hr (Or.inr hnom)
+  · obtain ⟨g0, h3, h4, auth, t⟩ := processRequest_forwarded h
+    have hL : n ∉ proxyWrittenLower ++ [bs "user-agent"] := by simp [hw, hua]
+    have k3 : canonicalKey n ∉ fwdKeys := key_not_mem_of_lower stageKeys_written.1 hl hL
+    have k45 : canonicalKey n ∉ [bs "Content-Length", bs "Via"] :=
+      key_not_mem_of_lower stageKeys_written.2.1 hl hL
+    have k6 : canonicalKey n ∉ tailKeys := key_not_mem_of_lower stageKeys_written.2.2 hl hL
+    simp only [List.mem_cons, List.not_mem_nil, or_false, not_or] at k45
+    rw [t.outValues_other hr hn hl (fun hwn => hL (writerNames_written _ hwn))]
+    exact t.hget_nominated_removed hr hn hl hnom k3 (by rw [ck_CL]; exact k45.1)
+      (by rw [ck_Via]; exact k45.2) k6
+
+/-- Authorization at the next hop, exactly: the client's values unless `Connection` nominates the
+    name; the site credential (`--credentials` entry matching the target) instead iff the first
+    surviving value is empty.  In particular a NOMINATED client Authorization never reaches the hop:
+    the hop sees the site credential or nothing. -/
+theorem c01_authorization_exact (h : processRequest cfg ctx r = .forwarded hop out)
+    (hr : cfg.rules = []) :
+    outValues out (bs "authorization") =
+      match cfg.siteCred with
+      | some a => if (survivingFirst r (bs "authorization")).isEmpty then [a]
+                  else survivingValues r (bs "authorization")
+      | none => survivingValues r (bs "authorization") := by
+  obtain ⟨g0, h3, h4, auth, t⟩ := processRequest_forwarded h
+  exact t.outValues_auth hr
+
+theorem c01_nominated_authorization_removed (h : processRequest cfg ctx r = .forwarded hop out)
+    (hr : cfg.rules = []) (hnom : bs "authorization" ∈ nominated r) :
+    outValues out (bs "authorization") =
+      match cfg.siteCred with | some a => [a] | none => [] := by
+  rw [c01_authorization_exact h hr]
+  simp [survivingFirst, survivingValues, hnom]
+
+/-- Capstone for protocol upgrades: whatever else the request nominates next to `Upgrade`
+    (Proxy-Authorization, Authorization, Proxy-Connection, Keep-Alive, TE, custom names, the
+    standard hop-by-hop set, …), the next hop sees `Connection: Upgrade` (after the proxy's own
+    `close`, if any) and nothing else under `Connection`, `Upgrade: <the type asked for>`, and no
+    line at all of any other nominated name that the proxy does not write itself. -/
+theorem c01_upgrade_only_upgrade_restored (h : processRequest cfg ctx r = .forwarded hop out)
+    (hr : cfg.rules = []) (hup : upgradeRequested r ≠ []) :
+    (∃ cl, (cl = [] ∨ cl = [bs "close"]) ∧
+      outValues out (bs "connection") = cl ++ [bs "Upgrade"]) ∧
+    outValues out (bs "upgrade") = [upgradeRequested r] ∧
+    ∀ n : Bytes, n.all isTokenByte = true → lower n = n → n ∈ nominated r →
+      n ∉ proxyWrittenLower → outValues out n = [] := by
+  have hne : (upgradeRequested r).isEmpty = false := by
+    cases hu : upgradeRequested r with
+    | nil => exact absurd hu hup
+    | cons _ _ => rfl
+  refine ⟨?_, ?_, fun n hn hl hnom hw => c01_nominated_removed h hr hn hl hnom hw⟩
+  · obtain ⟨g0, h3, h4, auth, t⟩ := processRequest_forwarded h
+    obtain ⟨cl, hcl, ho⟩ := t.outValues_conn hr
+    refine ⟨cl, hcl, ?_⟩
+    rw [ho, finish_eq, hr]
+    show cl ++ hget (finishTail cfg (upgradeType g0.header) h4) (bs "Connection") = _
+    rw [hget_finishTail_conn, t.upType, hne]
+    rfl
+  · rw [c01_upgrade_values h hr, hne]
+    rfl
+
+/-- `Connection: keep-alive, Upgrade ,PROXY-AUTHORIZATION, authorization,x-tok` (+ a second line
+    `TE`) with all of the nominated fields present, some twice in odd spellings -/
+def exReqUpgradeNominating : Request where
+  method := bs "GET"
+  minor := 1
+  target := .origin
+  path := bs "/chat"
+  query := none
+  fields := [
+    (bs "Host", bs "origin.test"),
+    (bs "Proxy-Authorization", bs "Basic Z2F0ZTprZWVwZXI="),
+    (bs "upgrade", bs "websocket"),
+    (bs "Connection", bs "keep-alive, Upgrade ,PROXY-AUTHORIZATION, authorization,x-tok"),
+    (bs "proxy-AUTHORIZATION", bs "Bearer second"),
+    (bs "Authorization", bs "Bearer for-the-proxy"),
+    (bs "X-Tok", bs "t1"),
+    (bs "x-tok", bs "t2"),
+    (bs "connection", bs "TE"),
+    (bs "TE", bs "trailers"),
+    (bs "Keep-Alive", bs "timeout=5"),
+    (bs "Cookie", bs "a=1")]
+
+example : upgradeRequested exReqUpgradeNominating = bs "websocket" ∧
+    bs "proxy-authorization" ∈ nominated exReqUpgradeNominating ∧
+    bs "authorization" ∈ nominated exReqUpgradeNominating ∧
+    bs "x-tok" ∈ nominated exReqUpgradeNominating ∧ bs "x-tok" ∉ proxyWrittenLower ∧
+    inValues exReqUpgradeNominating (bs "x-tok") = [bs "t1", bs "t2"] ∧
+    isFwd (processRequest exCfg exCtx exReqUpgradeNominating) = true ∧
+    checkFwd (processRequest exCfg exCtx exReqUpgradeNominating) (fun out =>
+      outValues out (bs "connection") == [bs "Upgrade"] &&
+      outValues out (bs "upgrade") == [bs "websocket"] &&
+      outValues out (bs "proxy-authorization") == [] && outValues out (bs "authorization") == [] &&
+      outValues out (bs "x-tok") == [] && outValues out (bs "te") == [] &&
+      outValues out (bs "keep-alive") == [] && outValues out (bs "cookie") == [bs "a=1"]) = true ∧
+    -- through an upstream proxy with its own credential: that credential only
+    checkFwd (processRequest exCfgUp exCtx exReqUpgradeNominating) (fun out =>
+      outValues out (bs "connection") == [bs "Upgrade"] &&
+      outValues out (bs "authorization") == [] && outValues out (bs "x-tok") == [] &&
+      !(outValues out (bs "proxy-authorization")).contains (bs "Basic Z2F0ZTprZWVwZXI=") &&
+      !(outValues out (bs "proxy-authorization")).contains (bs "Bearer second")) = true ∧
+    -- a site credential for the target is attached in place of the nominated client Authorization
+    checkFwd (processRequest { exCfg with siteCred := some (bs "Basic c2l0ZTpwdw==") } exCtx
+      exReqUpgradeNominating) (fun out =>
+      outValues out (bs "authorization") == [bs "Basic c2l0ZTpwdw=="]) = true := by decide +kernel
+
+/-! ## 13 histories: what the process handled before does not matter -/
+
+/-- one proxy process folded over a history (requests read by any of its listeners, on any
+    connection, plain or inside an intercepted tunnel, and origin responses passing through)
+    answers every request as `processRequest` answers it on its own -/
+theorem c01_history_pointwise (st : ProcState) (es : List Event) :
+    runProcess st es = es.map eventAlone :=
+  runProcess_eq_map st es
+
+/-- history independence: whatever was handled before (`pre`: requests that nominated any names in
+    `Connection`, origin responses that did, on this or other connections and listeners), from
+    whatever state, and whatever comes after, the request at position `pre.length` is forwarded (or
+    refused) exactly as `processRequest cfg ctx r` says -/
+theorem c01_history_independent (st : ProcState) (pre post : List Event) (cfg : Cfg) (ctx : Ctx)
+    (r : Request) :
+    (runProcess st (pre ++ .request cfg ctx r :: post))[pre.length]? =
+      some (some (processRequest cfg ctx r)) := by
+  rw [runProcess_eq_map]
+  simp [eventAlone]
+
+/-- … the state a run starts from and any prefix of earlier messages are irrelevant -/
+theorem c01_history_prefix_irrelevant (st st' : ProcState) (pre es : List Event) :
+    (runProcess st (pre ++ es)).drop pre.length = runProcess st' es := by
+  rw [runProcess_eq_map, runProcess_eq_map]
+  simp
+
+/-- … in particular a request sent twice, any distance apart, gets the same treatment -/
+theorem c01_history_repeat_stable (st : ProcState) (pre mid post : List Event) (cfg : Cfg)
+    (ctx : Ctx) (r : Request) :
+    (runProcess st (pre ++ .request cfg ctx r :: mid ++ .request cfg ctx r :: post))[pre.length]? =
+      (runProcess st (pre ++ .request cfg ctx r :: mid ++ .request cfg ctx r :: post))[pre.length + 1 + mid.length]? := by
+  have h1 := c01_history_independent st pre (mid ++ .request cfg ctx r :: post) cfg ctx r
+  have h2 := c01_history_independent st (pre ++ .request cfg ctx r :: mid) post cfg ctx r
+  simp only [List.append_assoc, List.cons_append, List.length_append, List.length_cons] at h1 h2 ⊢
+  rw [h1]
+  rw [show pre.length + 1 + mid.length = pre.length + (mid.length + 1) by omega, h2]
+
+/-- the state only records: it moves on by one message and by the names that message nominated,
+    and the outcome of the step is the outcome of the event alone -/
+theorem c01_step_state (st : ProcState) (e : Event) :
+    (stepEvent st e).2 = eventAlone e ∧ (stepEvent st e).1.handled = st.handled + 1 ∧
+    (stepEvent st e).1.seenNominated = st.seenNominated ++ nominatedCanon e.fields := by
+  refine ⟨?_, rfl, rfl⟩
+  cases e <;> rfl
+
+/-- a request that nominates `X-Session-Token` (and carries it) -/
+def exReqNominates : Request where
+  method := bs "GET"
+  minor := 1
+  target := .origin
+  path := bs "/login"
+  query := none
+  fields := [(bs "Host", bs "origin.test"), (bs "Connection", bs "keep-alive, X-Session-Token"),
+    (bs "X-Session-Token", bs "for-the-proxy")]
+
+/-- a later, unrelated request that sends `X-Session-Token` end-to-end (two lines) -/
+def exReqCarries : Request where
+  method := bs "GET"
+  minor := 1
+  target := .origin
+  path := bs "/account"
+  query := none
+  fields := [(bs "Host", bs "origin.test"), (bs "x-session-token", bs "abc"),
+    (bs "X-Session-Token", bs "def")]
+
+-- the history nominating request, an origin response nominating `X-Cache-Node`, then the carrier on
+-- another listener (upstream proxy) and inside an intercepted tunnel: the carrier arrives intact
+example :
+    let hist : List Event := [.request exCfg exCtx exReqNominates,
+      .response [(bs "Connection", bs "X-Cache-Node"), (bs "X-Cache-Node", bs "n1")],
+      .request exCfgUp exCtx exReqCarries,
+      .request exCfg { exCtx with secure := true } exReqCarries]
+    (runProcess {} hist)[2]? = some (some (processRequest exCfgUp exCtx exReqCarries)) ∧
+    (runProcess {} hist)[1]? = some none ∧
+    ((runProcess {} hist).all fun o => match o with
+      | some o => isFwd o | none => true) = true ∧
+    checkFwd (processRequest exCfgUp exCtx exReqCarries) (fun out =>
+      outValues out (bs "x-session-token") == [bs "abc", bs "def"]) = true ∧
+    checkFwd (processRequest exCfg exCtx exReqNominates) (fun out =>
+      outValues out (bs "x-session-token") == []) = true := by
+  intro hist
+  refine ⟨c01_history_independent {} [_, _] [_] exCfgUp exCtx exReqCarries, ?_, ?_, ?_, ?_⟩ <;>
+    decide +kernel
+
+/-- The counter-model the history theorems exclude: a process whose hop-by-hop set grows with every
+    name some message nominated (`stickyProcess`: a process-wide set that is aliased instead of
+    copied).  It treats the nominating request itself correctly, and on a fresh process it agrees
+    with `processRequest` on every single request — only a HISTORY tells the two apart: after the
+    nominating request the carrier loses its end-to-end `X-Session-Token` lines; so does it after
+    an origin RESPONSE nominated the name. -/
+theorem c01_sticky_witness :
+    (stickyProcess [] [.request exCfg exCtx exReqNominates])[0]? =
+      some (some (processRequest exCfg exCtx exReqNominates)) ∧
+    (stickyProcess [] [.request exCfg exCtx exReqCarries])[0]? =
+      some (some (processRequest exCfg exCtx exReqCarries)) ∧
+    checkFwd (processRequest exCfg exCtx exReqCarries) (fun out =>
+      outValues out (bs "x-session-token") == [bs "abc", bs "def"]) = true ∧
+    (match (stickyProcess [] [.request exCfg exCtx exReqNominates, .request exCfg exCtx exReqCarries])[1]? with
+      | some (some o) => isFwd o && checkFwd o (fun out => outValues out (bs "x-session-token") == [])
+      | _ => false) = true ∧
+    (match (stickyProcess [] [.response [(bs "Connection", bs "x-session-token")],
+        .request exCfg exCtx exReqCarries])[1]? with
+      | some (some o) => isFwd o && checkFwd o (fun out => outValues out (bs "x-session-token") == [])
+      | _ => false) = true := by decide +kernel
+
+/-- … and on histories in which no earlier message nominated anything the two agree -/
+theorem c01_sticky_agrees_without_nomination (es : List Event)
+    (h : ∀ e ∈ es, nominatedCanon e.fields = []) :
+    stickyProcess [] es = runProcess {} es := by
+  rw [runProcess_eq_map]
+  induction es with
+  | nil => rfl
+  | cons e es ih =>
+    have he := h e List.mem_cons_self
+    simp only [stickyProcess, he, List.append_nil, List.map_cons]
+    rw [ih (fun e' he' => h e' (List.mem_cons_of_mem _ he'))]
+    cases e with
+    | request cfg ctx r => simp [eventAlone, dropNamed_nil]
+    | response fs => rfl
+
 /-
   What is not proved here.
   * Clauses 3 and 5b–9 (Host, Connection/Upgrade, User-Agent, Via, X-Forwarded-*, Accept-Encoding)
@@ -648,7 +918,10 @@ example : (processConnection exCfg exCtx (reqItems [exReqChains, exReq, exReqUpg
     applied exactly when the client sent no `Authorization` is C06's clause and not restated here.
   * Body bytes are opaque to the model (`Body`/framing are decided, payload is observed by the
     correspondence runs only); `processConnection` works on parsed requests, not on the byte
-    stream (no `Lib/Http1` parser yet), so position independence is by definition.
+    stream (no `Lib/Http1` parser yet), so position independence is by definition.  The same holds
+    for `runProcess` (§13): the model HAS no state the pipeline reads, the history theorems say so
+    in the form the correspondence runs compare (`REQ sequence`: whole histories against the real
+    process), and `c01_sticky_witness` shows a process that does keep such state is told apart.
   * Names that are not RFC 7230 tokens are excluded by `n.all isTokenByte`; `c01_wf_names_are_tokens`
     shows a request Go accepts (`WFReq`) has no values under such a name, the matching statement
     for `outValues` is not proved.
